@@ -174,6 +174,168 @@ func domainAtomS(a *an.Atom, sub Subst, global string, pos bool) bool {
 	return (a.Op == "true") == pos
 }
 
+// domainTableExits: loops of fn that compare the request's domain type with every entry of a local table and leave on a
+// match: `for _, e := range table { if bytes.Equal(req.Domain[0:4], e.domainType[:]) { return DENIED } }`. On the exit edge
+// of such a loop the domain type differs from every domain the table holds. Returned: header block -> names of the e2types
+// domain globals stored in the table, for loops that (a) run over the whole literal, (b) reach the next
+// iteration only through the not-equal edge of that comparison (the match edge leaves the loop; where it leads is judged
+// by the cut like any other path).
+func domainTableExits(fn *ssa.Function) map[*ssa.BasicBlock]map[string]bool {
+	out := map[*ssa.BasicBlock]map[string]bool{}
+	for _, l := range FindLoops(fn) {
+		if !l.FullRange || l.BoundLen == nil {
+			continue // (leaving the loop early on a match is the point; the facts are claimed for the exit edge of the header only)
+		}
+		// the table: a slice of a local array literal
+		var arr *ssa.Alloc
+		switch x := l.BoundLen.(type) {
+		case *ssa.Slice:
+			arr, _ = x.X.(*ssa.Alloc)
+		case *ssa.Alloc:
+			arr = x
+		}
+		if arr == nil {
+			continue
+		}
+		tableRoot := sliceRootExact(l.BoundLen)
+		sameTable := func(v ssa.Value) bool {
+			r := sliceRootExact(v)
+			return r == tableRoot || r == ssa.Value(arr) || v == l.BoundLen
+		}
+		// a global loaded directly, or through a local composite literal whose field holds it
+		globalsOf := func(v ssa.Value) []string {
+			u, isU := v.(*ssa.UnOp)
+			if !isU {
+				return nil
+			}
+			if g, isG := u.X.(*ssa.Global); isG && g.Pkg != nil && g.Pkg.Pkg.Path() == pkgE2Types {
+				return []string{g.Name()}
+			}
+			var out []string
+			if lit, isLit := u.X.(*ssa.Alloc); isLit {
+				for _, r := range *lit.Referrers() {
+					fa, isFA := r.(*ssa.FieldAddr)
+					if !isFA {
+						continue
+					}
+					for _, r2 := range *fa.Referrers() {
+						if st, isSt := r2.(*ssa.Store); isSt && st.Addr == ssa.Value(fa) {
+							if u2, ok := st.Val.(*ssa.UnOp); ok {
+								if g, isG := u2.X.(*ssa.Global); isG && g.Pkg != nil && g.Pkg.Pkg.Path() == pkgE2Types {
+									out = append(out, g.Name())
+								}
+							}
+						}
+					}
+				}
+			}
+			return out
+		}
+		// entries: stores of loaded e2types globals (4-byte arrays) into (fields of) elements at constant positions
+		globals := map[string]bool{}
+		fieldOfEntry := -1
+		okTable := true
+		for _, r := range *arr.Referrers() {
+			ia, isIA := r.(*ssa.IndexAddr)
+			if !isIA {
+				continue
+			}
+			if _, isK := ia.Index.(*ssa.Const); !isK {
+				okTable = false
+				continue
+			}
+			for _, r2 := range *ia.Referrers() {
+				switch y := r2.(type) {
+				case *ssa.FieldAddr:
+					for _, r3 := range *y.Referrers() {
+						st, isSt := r3.(*ssa.Store)
+						if !isSt {
+							continue
+						}
+						if u, isU := st.Val.(*ssa.UnOp); isU {
+							if g, isG := u.X.(*ssa.Global); isG && g.Pkg != nil && g.Pkg.Pkg.Path() == pkgE2Types {
+								globals[g.Name()] = true
+								fieldOfEntry = y.Field
+							}
+						}
+					}
+				case *ssa.Store:
+					for _, gn := range globalsOf(y.Val) {
+						globals[gn] = true
+					}
+				}
+			}
+		}
+		if !okTable || len(globals) == 0 {
+			continue
+		}
+		// the comparison in the body: bytes.Equal(<domain prefix>, <current entry>[.field][:])
+		isEntry := func(v ssa.Value) bool {
+			s2, ok := v.(*ssa.Slice)
+			if !ok || s2.Low != nil || s2.High != nil {
+				return false
+			}
+			x := s2.X
+			if fa, ok := x.(*ssa.FieldAddr); ok {
+				if fieldOfEntry >= 0 && fa.Field != fieldOfEntry {
+					return false
+				}
+				x = fa.X
+			}
+			// x: the element address table[idx], or a local copy of the element
+			if ia, ok := x.(*ssa.IndexAddr); ok {
+				return ia.Index == l.Idx && sameTable(ia.X)
+			}
+			if cp, ok := x.(*ssa.Alloc); ok {
+				n := 0
+				okCopy := true
+				for _, r := range *cp.Referrers() {
+					if st, isSt := r.(*ssa.Store); isSt && st.Addr == ssa.Value(cp) {
+						n++
+						root, idx, isLoad := elemLoadAny(st.Val)
+						if !isLoad || idx != l.Idx || !sameTable(root) {
+							okCopy = false
+						}
+					}
+				}
+				return n == 1 && okCopy
+			}
+			return false
+		}
+		var cmp *ssa.Call
+		for b := range l.Body {
+			for _, ins := range b.Instrs {
+				call, ok := ins.(*ssa.Call)
+				if !ok || call.Call.StaticCallee() == nil || call.Call.StaticCallee().String() != "bytes.Equal" {
+					continue
+				}
+				a0, a1 := call.Call.Args[0], call.Call.Args[1]
+				isPrefix := func(v ssa.Value) bool {
+					p, ok := v.(*ssa.Slice)
+					if !ok || p.High == nil || !an.IsConstInt(p.High, 4) || (p.Low != nil && !an.IsConstInt(p.Low, 0)) {
+						return false
+					}
+					owner, fld, _ := an.FieldOf(p.X)
+					return owner != nil && fld == "Domain"
+				}
+				if (isPrefix(a0) && isEntry(a1)) || (isPrefix(a1) && isEntry(a0)) {
+					cmp = call
+				}
+			}
+		}
+		if cmp == nil {
+			continue
+		}
+		hdr := l.Header
+		if x, _ := an.Cut(an.CutQuery{From: an.Point{Block: l.BodyFirst, Idx: 0}, Target: func(i ssa.Instruction) bool { return i == hdr.Instrs[0] },
+			AcceptEdge: func(b *ssa.BasicBlock, i int, a *an.Atom) bool { return a != nil && a.Op == "false" && a.LV == ssa.Value(cmp) }}); x != nil {
+			continue
+		}
+		out[l.Header] = globals
+	}
+	return out
+}
+
 // DomainRules: C05 O1-O4.
 func (c *Ctx) DomainRules(prop string) {
 	s := c.Slashing(prop + ".anchors")
@@ -193,6 +355,38 @@ func (c *Ctx) DomainRules(prop string) {
 			g := g
 			// the deny tests may sit in any frame of the call chain from the generic rule to the APPROVED origin
 			okCut, wit := c.InterCut(o.Fn, site, isSignRoot, func(a *an.Atom, sub Subst) bool { return domainAtomS(a, sub, g, false) })
+			if !okCut {
+				// the refusals as a loop over a local table of protected domains: the loop's exit edge stands for [!= every entry]
+				okAll := false
+				for _, ch := range c.Chains(o.Fn, site, isSignRoot, 4) {
+					if !isSignRoot(ch[0].Fn) {
+						continue
+					}
+					okAll = true
+					cutSome := false
+					for k := len(ch) - 1; k >= 0 && !cutSome; k-- {
+						fr := ch[k]
+						exits := domainTableExits(fr.Fn)
+						base := c.WithSummariesFrom(fr.Sub, func(a *an.Atom, sub Subst) bool { return domainAtomS(a, sub, g, false) })
+						tk := fr.Target
+						if x, _ := an.Cut(an.CutQuery{From: an.Entry(fr.Fn), Target: func(i ssa.Instruction) bool { return i == tk },
+							AcceptEdge: func(b *ssa.BasicBlock, i int, a *an.Atom) bool {
+								if base(b, i, a) {
+									return true
+								}
+								gs := exits[b]
+								return gs != nil && gs[g] && len(b.Succs) == 2 && i == 1
+							}}); x == nil {
+							cutSome = true
+						}
+					}
+					if !cutSome {
+						okAll = false
+						break
+					}
+				}
+				okCut = okAll
+			}
 			want := "every path to APPROVED in the generic rule passes [domain[0:4] != " + g + "]"
 			if !okCut {
 				c.R.Fail(rule1, Fn(o.Fn)+":"+g, c.Pos(site), "the generic signing rule can approve a request whose domain type is "+g+" (a slashable message signed without its slashing rule)", want, wit)
